@@ -105,7 +105,7 @@ def table_new(F):
             raise AnchorMissing("Blocker aggregate in Blocker::new not found")
         key = pred_key(r"Iterator>::next(@bb\d+)?\(arg:network_filters\)@Some\.0")
         t = Table("Blocker::new")
-        for p in enumerate_paths(f):
+        for p in enumerate_paths(f, inline=F):
             conds = {}
             in_second_loop = False
             for e, val in p.conds:
@@ -141,7 +141,7 @@ def table_add(F):
     key = pred_key(r"^arg:filter$")
     t = Table("Blocker::add_filter")
     order_violations = []
-    for p in enumerate_paths(f):
+    for p in enumerate_paths(f, inline=F):
         conds = {}
         for e, val in p.conds:
             k = key(e)
@@ -179,7 +179,7 @@ def table_exists(F):
     f = F.fn("blocker::Blocker::filter_exists")
     key = pred_key(r"^arg:filter$")
     t = Table("Blocker::filter_exists")
-    for p in enumerate_paths(f):
+    for p in enumerate_paths(f, inline=F):
         conds = {}
         for e, val in p.conds:
             k = key(e)
